@@ -96,36 +96,19 @@ Definition obs_of (r : st float * list (list nat)) : c14_obs :=
   Some (map (fun j => dump_of (h_get _ h j)) (seq 0 (h_next _ h)), s_log _ s, s_proc _ s,
         length (s_inds _ s), length (s_todo _ s), idss).
 
-(* runs in which evaluated designs are submitted again (outside the theorems; they exercise the
-   overwrite branch of the length test): the same evaluate functions of the model, on a batch made
-   of new cells followed by old ones *)
-Section Again.
-  Variable ev : st float -> list nat -> option (st float).
-  Variable pre_eval : heap float * list fvec -> list nat -> heap float * list fvec.   (* a plain Evaluator.evaluate *)
-  Fixpoint pick {A : Type} (l : list A) (flags : list bool) : list A :=
-    match l, flags with
-    | x :: l', true :: f' => x :: pick l' f'
-    | _ :: l', _ :: f' => pick l' f'
-    | _, _ => []
-    end.
-  Fixpoint again_batches (s : st float) (created : list nat) (bs : list (list fvec)) (ag : list (list nat))
-           (pre : list (list bool)) : option (st float * list (list nat)) :=
-    match bs with
-    | [] => Some (s, [])
-    | b :: bs' =>
-        let '(h1, ids) := new_designs float (s_heap _ s) b in
-        let '(h2, log2) := pre_eval (h1, s_log _ s) (pick ids (hd [] pre)) in
-        let s0 := {| s_heap := h2; s_inds := s_inds _ s; s_todo := s_todo _ s; s_log := log2; s_proc := s_proc _ s |} in
-        let old := map (fun k => nth k created 0) (hd [] ag) in
-        match ev s0 (ids ++ old) with
-        | None => None
-        | Some s1 => match again_batches s1 (created ++ ids) bs' (tl ag) (tl pre) with
-                     | None => None
-                     | Some (s2, idss) => Some (s2, (ids ++ old) :: idss)
-                     end
-        end
-    end.
-End Again.
+(* histories with designs that are not fresh (Model: wc_hist / g_hist, the functions of
+   C14_worstcase_cost_shape and C14_gradient_with_resubmission): per batch the new designs
+   (Pre when already evaluated by a plain Evaluator), then the designs submitted again *)
+Fixpoint new_items (b : list fvec) (pre : list bool) : list (item float) :=
+  match b with
+  | [] => []
+  | v :: b' => (if hd false pre then Pre v else New v) :: new_items b' (tl pre)
+  end.
+Fixpoint hist_items (bs : list (list fvec)) (ag : list (list nat)) (pre : list (list bool)) : list (list (item float)) :=
+  match bs with
+  | [] => []
+  | b :: bs' => (new_items b (hd [] pre) ++ map Old (hd [] ag)) :: hist_items bs' (tl ag) (tl pre)
+  end.
 
 Definition c14_run (c : c14_case) : c14_obs :=
   let t := c_table c in
@@ -147,12 +130,17 @@ Definition c14_run (c : c14_case) : c14_obs :=
       | None => None
       end
   else
-    match again_batches (if c_wc c then fun s ids => Some (wce s ids) else ge)
-                        (eval_serial float (tab_f t) (tab_sgn t) (tab_infeas t))
-                        (init float) [] (c_batches c) (c_again c) (c_pre c) with
-    | Some r => obs_of r
-    | None => None
-    end.
+    let items := hist_items (c_batches c) (c_again c) (c_pre c) in
+    if c_wc c then
+      obs_of (wc_hist float PrimFloat.add PrimFloat.sub PrimFloat.mul PrimFloat.abs
+                      0%float 1%float (-1)%float psum (c_m c) (c_tols c)
+                      (tab_f t) (tab_sgn t) (tab_infeas t) (init float) [] items)
+    else
+      match g_hist float PrimFloat.add PrimFloat.sub PrimFloat.div 0%float DELTA
+                   (tab_f t) (tab_sgn t) (tab_infeas t) (init float) [] items with
+      | Some r => obs_of r
+      | None => None
+      end.
 
 Definition sval_eqb (a b : sval float) : bool :=
   match a, b with
